@@ -65,7 +65,7 @@ PPre(e, d, s) ==
        LET cs == IF op = "add_constraint" THEN <<Row(e.k, e.v)>> ELSE e.cs IN
        (IF e.argn # n /\ (op = "add_disjunct" \/ e.argn > n) THEN "inv" ELSE IF c /\ HasStrict(cs) THEN "any" ELSE "ok")
   ELSE IF op = "add_disjunct_gs" THEN "any"
-  ELSE IF op \in {"refine_with_constraint", "refine_with_constraints", "relation_with_constraint"} THEN (IF e.argn > n THEN "inv" ELSE "ok")
+  ELSE IF op \in {"refine_with_constraint", "refine_with_constraints", "relation_with_constraint", "relation_with_generator"} THEN (IF e.argn > n THEN "inv" ELSE "ok")
   ELSE IF op \in {"add_congruence", "refine_with_congruence"} THEN "any"
   ELSE IF op \in {"contains", "strictly_contains", "is_disjoint_from", "geometrically_covers", "geometrically_equals", "intersection", "poly_hull",
                   "poly_difference", "time_elapse", "simplify_using_context", "hull_if_exact", "BHZ03_widening", "BGP99_extrapolation"} THEN (IF s.n # n THEN "inv" ELSE "ok")
